@@ -326,6 +326,24 @@ func (c *Ctx) visitedGuarded(fi *core.FuncInfo, call *ast.CallExpr) bool {
 		if ext {
 			return true
 		}
+		// or the callee receives a map computed from the tested key (helper form: visitedWith(key))
+		keyObj := core.ObjOf(info, key)
+		handed := false
+		ast.Inspect(call, func(a ast.Node) bool {
+			inner, ok := a.(*ast.CallExpr)
+			if !ok || inner == call || !core.IsMap(info.TypeOf(inner)) {
+				return true
+			}
+			for _, arg := range inner.Args {
+				if sameExpr(arg, key) || keyObj != nil && core.ObjOf(info, arg) == keyObj {
+					handed = true
+				}
+			}
+			return true
+		})
+		if handed {
+			return true
+		}
 		// or a bounded depth counter: cond mentions a comparison of an int with a constant — not accepted here
 	}
 	return false
